@@ -197,7 +197,7 @@ def partCreate (st : St) (line : Nat) (m : Markup) : Except Err (PartSt × List 
               | none => cErr line
               | some given =>
                 let sizes := given ++ List.replicate (st.dim + 1 - given.length) 0
-                if tt == .full && zeroBelow sizes then cErr line
+                if tt != .none && zeroBelow sizes then cErr line
                 else
                   .ok ({ name := name, chart := chart, topoType := tt, sizes := sizes,
                          maps := List.replicate (st.dim + 1) none, topo := List.replicate st.dim none, attrs := [] },
